@@ -77,7 +77,11 @@ func accExec(calls []accCall) (float64, string) {
 		}
 		switch c.Kind {
 		case "acc":
-			if err := m.Accumulate(labels(c.P), labels(c.T)); err != nil {
+			yp, yt := labels(c.P), labels(c.T)
+			if fmt.Sprint(c.P) == fmt.Sprint(c.T) && i%2 == 0 {
+				yt = yp // equal batches: every other time the very same tensor object in both slots
+			}
+			if err := m.Accumulate(yp, yt); err != nil {
 				return 0, fmt.Sprintf("call %d: valid batch rejected: %v", i, err)
 			}
 		case "bad":
